@@ -108,6 +108,8 @@ def gen_case(rng):
         p['shape_arg'] = True
     # layout of the dense source when an explicit shape is passed (the constructor reshapes first)
     p['layout'] = rng.choice(['natural', 'natural', 'flat', 'matrix', 'unit_axis'])
+    # the contract is relative: the whole array may be tiny or huge
+    p['global_scale'] = rng.choice([0, 0, 0, -30, -20, -17, -12, 12, 25]) if p['dt'] in ('f64', 'c128') else 0
     return p
 
 
@@ -252,6 +254,8 @@ def exec_case(p, res, plans=None, rng=None):
     stats = res['stats']
     out = []
     A, known, generic = build_dense(p)
+    if p.get('global_scale'):
+        A = A * (10.0 ** p['global_scale'])
     p2 = dict(p)
     p2['eps'] = eps_of(p)
     fam = '%s|d%d|%s|%s|%s|%s' % (p['cls'], len(p['N']), 'M' if p.get('ttm') else 'T', p['dt'], p['src'],
